@@ -1,0 +1,62 @@
+//go:build verif
+
+package workflow
+
+import (
+	"context"
+	"hash/fnv"
+	"time"
+
+	"k8s.io/utils/clock"
+
+	"github.com/luno/workflow/internal/graph"
+)
+
+// Thin exported wrappers around unexported functions, compiled only with `-tags verif`, for the
+// verification harness under /verif. They add no behaviour.
+
+func VerifShardFilter(shard, totalShards int) EventFilter { return shardFilter(shard, totalShards) }
+
+func VerifMakeRole(inputs ...string) string { return makeRole(inputs...) }
+
+func VerifValidateTransition[Status StatusType](current, next Status, g *graph.Graph) error {
+	return validateTransition(current, next, g)
+}
+
+func VerifConnectorEventToEvent(e *ConnectorEvent) (*Event, error) {
+	return connectorEventToEvent(fnv.New64(), e)
+}
+
+func VerifStreamerEventToConnectorEvent(e *Event) (*ConnectorEvent, error) {
+	return streamerEventToConnectorEvent(e)
+}
+
+func VerifFilterByRunState(rs RunState) EventFilter { return filterByRunState(rs) }
+func VerifFilterByRunID(id string) EventFilter      { return filterByRunID(id) }
+func VerifFilterByForeignID(id string) EventFilter  { return filterByForeignID(id) }
+
+func VerifSkipUpdate[Status StatusType](s Status) bool { return skipUpdate(s) }
+
+func VerifRunOnce(
+	ctx context.Context,
+	workflowName, role, processName string,
+	updateState func(processName string, s State),
+	awaitRole func(ctx context.Context, role string) (context.Context, context.CancelFunc, error),
+	process func(ctx context.Context) error,
+	clk clock.Clock,
+	errBackOff time.Duration,
+) error {
+	return runOnce(ctx, workflowName, role, processName, updateState, awaitRole, process,
+		&logger{inner: discardLogger{}}, clk, errBackOff)
+}
+
+type discardLogger struct{}
+
+func (discardLogger) Debug(ctx context.Context, msg string, meta map[string]string) {}
+func (discardLogger) Error(ctx context.Context, err error)                          {}
+
+// VerifGraph exposes the status graph of a built workflow (read-only use).
+func (w *Workflow[Type, Status]) VerifGraph() *graph.Graph { return w.statusGraph }
+
+// VerifDefaultStartingPoint exposes the default starting point chosen by Build.
+func (w *Workflow[Type, Status]) VerifDefaultStartingPoint() Status { return w.defaultStartingPoint }
